@@ -457,6 +457,35 @@ func runC02(env *Env, tier string) {
 	}
 	env.State("il:" + strconv.FormatUint(h%1000003, 36))
 
+	// ---- a slow socket: the connection takes the engine's writes one at a time, when the driver says so, while
+	// the application keeps sending. What reaches the wire must still be every number, once, in order.
+	if p.Connected() && s.E.App.LoggedOn() && !env.Failed() && ch.Chance("slowsocket", 1, 3) {
+		env.QuietWindow(50 * time.Millisecond)
+		send := func(k int) {
+			for ; k > 0; k-- {
+				id := "slow-" + p.NextID()
+				inv := env.Rec("task:driver", "invoke", id, true)
+				err := s.E.Send("D", AppBody(id))
+				env.Settle()
+				ret := env.Rec("task:driver", "return", id, true)
+				o := c02op{task: "", invoke: inv, ret: ret, seq: -1}
+				if err != nil {
+					o.err = err.Error()
+				}
+				ops = append(ops, o)
+			}
+		}
+		p.EP.GateWrites()
+		send(1 + ch.Choose("slowfirst", 3))
+		for round := 1 + ch.Choose("slowrounds", 3); round > 0; round-- {
+			p.EP.ReleaseWrites(1 + ch.Choose("slowrelease", 2))
+			env.Settle()
+			send(1 + ch.Choose("slowmore", 3))
+		}
+		p.EP.UngateWrites()
+		env.Settle()
+		env.Stat("fault_slow_socket_writes_released_one_at_a_time")
+	}
 	judgeC02(env, s, c, ops, startN, rrNs, storeFaults || anyDiskFault, logonRace)
 	env.Nontrivial = interleaved
 }
